@@ -85,16 +85,28 @@ def run(tier):
     # (4) the defragmenter under arbitrary call sequences (the C07 driver, under the same observation)
     dr = os.path.join(d, "defrag.ndjson")
     rc, _ = vlib.run_harness(binary, ["defrag-fuzz", str(vlib.seed() + 17), "8000" if thorough else "1500", "30", dr])
-    for r in vlib.read_ndjson(dr):
+    runs = vlib.read_ndjson(dr)
+    # ... and at real sizes: fragmented messages of 40000..200000 bytes (buffer lengths around 2^16 and 2^17), the repository's flights
+    from checks import c07
+    big = c07.big_runs() + c07.capture_runs()
+    bin_, bout = os.path.join(d, "defrag_big.in.ndjson"), os.path.join(d, "defrag_big.out.ndjson")
+    vlib.write_ndjson(bin_, [{"id": r["id"], "prefix": [], "tests": r["ops"], "seq": True} for r in big])
+    vlib.run_harness(binary, ["defrag", bin_, bout])
+    bo = {o["id"]: o for o in vlib.read_ndjson(bout)}
+    runs += [{"id": r["id"], "ops": r["ops"], "results": bo[r["id"]]["results"]} for r in big if r["id"] in bo]
+    if len(bo) != len(big):
+        raise vlib.ToolError("defragmenter big runs: %d results for %d runs" % (len(bo), len(big)))
+    for r in runs:
         fed = 0
         for op, x in zip(r["ops"], r["results"]):
             rep.count()
-            fed += len(op["data"][0]["lit"])
+            oplen = len(c07.vlib_bytes(op))
+            fed += oplen
             why = None
             if x["res"]["k"] in ("panic", "timeout"):
                 why = "panic: %s" % x["res"]["e"]
-            elif x["alloc"] > 1024 * len(op["data"][0]["lit"]) + 2 * x["buflen"] + 65536:
-                why = "heap %d bytes inside one call for a %d-byte record (buffer %d bytes)" % (x["alloc"], len(op["data"][0]["lit"]), x["buflen"])
+            elif x["alloc"] > 1024 * oplen + 2 * x["buflen"] + 65536:
+                why = "heap %d bytes inside one call for a %d-byte record (buffer %d bytes)" % (x["alloc"], oplen, x["buflen"])
             elif x.get("fmt_panic"):
                 why = "Debug formatting panicked"
             if why:
